@@ -1846,6 +1846,23 @@ def check_constructor_chain(rep, repo, err, base, fam):
                         any(k.arg == pname and isinstance(k.value, ast.Name) and k.value.id == pname for k in call.keywords)
                     if not passed or _name_stores(m, pname):
                         why = 'does not pass its %s parameter on (unchanged)' % pname
+        if len(sup) == 1:
+            # ... and what was given stays: once the next constructor has stored code / message / detail / error_type, this one
+            # writes such a field only where it is known to be unset (``self.error_type is None``), never over a given value
+            sst = stmt_of(c.mod, sup[0])
+            later = mcfg.reach(mcfg.nodes_of(sst), include_src=False)
+            over = []
+            for attr, node in _self_attr_stores(m):
+                if attr is not None and attr not in _CLASS_DEFAULTS:
+                    continue
+                st = stmt_of(c.mod, node)
+                if st is sst or not (set(mcfg.nodes_of(st)) & later):
+                    continue
+                if attr is None or not implies_absent(conds(m, st), '%s.%s' % (me, attr)):
+                    over.append((attr or '<computed>', st))
+            rep.check('R09.a', fkey(m, 'keeps what it was given'), not over, '%s.__init__ leaves the fields the next constructor stored alone (or fills unset ones)' % c.name if not over else
+                      '%s.__init__ writes self.%s after the next constructor has stored it, also when the caller gave one: the %s given to the '
+                      'instance is replaced in status / body' % (c.name, over[0][0], over[0][0]), c.mod, over[0][1] if over else m.node)
         ok = why is None
         rep.check('R09.a', fkey(m, 'hands its arguments to the next constructor'), ok,
                   '%s.__init__ passes its arguments on to the next constructor' % c.name if ok else
